@@ -387,3 +387,20 @@ def MMems.hiddenMarks : MMems → List String
   | .clear _ x r => x.hiddenMarks ++ r.hiddenMarks
   | .marked _ _ x r => x.allMarks ++ r.hiddenMarks
 end
+
+mutual
+/-- (digest, subtree) of every marked node, at every depth -/
+def MJ.hiddenE : MJ → List (String × MJ)
+  | .leaf _ => []
+  | .arr xs => xs.hiddenE
+  | .obj ms _ => ms.hiddenE
+def MElems.hiddenE : MElems → List (String × MJ)
+  | .nil => []
+  | .clear x r => x.hiddenE ++ r.hiddenE
+  | .marked dg x r => (dg, x) :: (x.hiddenE ++ r.hiddenE)
+  | .decoy _ r => r.hiddenE
+def MMems.hiddenE : MMems → List (String × MJ)
+  | .nil => []
+  | .clear _ x r => x.hiddenE ++ r.hiddenE
+  | .marked _ dg x r => (dg, x) :: (x.hiddenE ++ r.hiddenE)
+end
